@@ -145,3 +145,57 @@ Theorem C12_context_preserved_all : forall D hcode tst F st cur o st' cur',
   select2 D hcode tst F st cur = R o st' cur' -> cur' = cur /\ config_of2 st' = config_of2 st.
 Proof. exact context_preserved2. Qed.
 Print Assumptions C12_context_preserved_all.
+
+(* ------------------------------------------------------------------ *)
+(* END TO END, from the TEXT of an ordered path P (child / attribute / self steps, optionally ending
+   in ONE descendant step, e.g. //name): P, count(P) and reverse(P) compile; Select on P yields the
+   denotation in document order without repeats, Evaluate the same sequence, count(P) its length,
+   reverse(P) the reversed sequence. *)
+From XP Require Import F64 Scan Parse Build.
+From XP.Spec Require Import Axes Paths.
+From XP.Proofs Require Import HashInj RoundTripOps RoundTripPaths EndToEndPaths EndToEndFlat.
+Open Scope string_scope.
+
+Theorem C12_end_to_end_ordered : forall D has_ns hc rm rn rr,
+  hash_ok (hc D) (all_nodes D) ->
+  forall re_ok ns p abs steps,
+  path_syntax p -> steps_of p = (abs, steps) -> ordered_steps steps ->
+  xok p -> xok (XCall "count" (AOne p)) -> xok (XCall "reverse" (AOne p)) ->
+  List.length steps + 2 <= max_build_depth ->
+  exists q qc qr,
+    compile re_ok (print_min p) ns = Ok q /\
+    compile re_ok (print_min (XCall "count" (AOne p))) ns = Ok qc /\
+    compile re_ok (print_min (XCall "reverse" (AOne p))) ns = Ok qr /\
+    forall c, valid D c = true ->
+    exists l,
+      select rm rn rr hc D has_ns q c = Val l /\ sorted_doc l /\ NoDup l /\
+      (forall n, In n l <-> path_den D has_ns steps (if abs then root_node else c) n) /\
+      evaluate rm rn rr hc D has_ns q c = Val (VNodes (unnumbered l)) /\
+      evaluate rm rn rr hc D has_ns qc c = Val (VNum (of_Z (Z.of_nat (List.length l)))) /\
+      select rm rn rr hc D has_ns qr c = Val (rev l).
+Proof. exact C12_ordered_end_to_end. Qed.
+Print Assumptions C12_end_to_end_ordered.
+
+(* ------------------------------------------------------------------ *)
+(* CURSOR LEVEL, the whole evaluator: Model1/Iter3.v transliterates Select and Evaluate of every
+   query type, of the function layer (func.go, with functionArgs cloning) and of the operator layer
+   (operator.go); for every supported query tree the cursor-level run delivers exactly the list the
+   list-level model returns, ends with nil, and leaves the shared context node where it was. *)
+From XP.Model1 Require Import Iter3.
+From XP.Proofs Require Import IterRefine3.
+
+Theorem C12_cursor_level_select_all : forall D has_ns hc rm rn rr q (wf : m1_supported q = true) c l,
+  sel D has_ns hc rm rn rr q c = Val l ->
+  exists F0, forall F n, F0 <= F -> List.length l < n ->
+    drain_items3 D has_ns hc rm rn rr F n (fresh3 q) c = l /\
+    drain3 D has_ns hc rm rn rr F n (fresh3 q) c = nodes_of l /\
+    exists st', run3 D has_ns hc rm rn rr F n (fresh3 q) c = (l, E_nil, st', c).
+Proof. exact m1_refines_m2_all. Qed.
+Print Assumptions C12_cursor_level_select_all.
+
+Theorem C12_cursor_level_evaluate_all : forall D has_ns hc rm rn rr q (wf : m1_supported q = true) c V,
+  eval D has_ns hc rm rn rr q c = Val V ->
+  exists F0, forall F n, F0 <= F -> vlen V < n ->
+    evaluate3 D has_ns hc rm rn rr F n q c = val_out V.
+Proof. exact m1_evaluate_refines. Qed.
+Print Assumptions C12_cursor_level_evaluate_all.
